@@ -24,7 +24,7 @@ ASSUMPTIONS = ["np.bool_ and np.datetime64 values are not generated (not 'number
 EXHAUSTIVE = None
 MUST_HIT = ['env:c-locale', 'returned-values-mutated-by-caller', 'start:none', 'start:empty', 'start:given', 'start:over-occupant-with-metadata', 'start:copy-over', 'start:empty-over', 'kind:Array', 'kind:Ragged', 'update-empty-on-empty', 'pop-default-on-empty',
             'last-key-removed', 'val:nparr', 'val:nonascii', 'val:npint', 'val:npfloat', 'val:bytes', 'val:nan', 'bad-update',
-            'pop-missing-nodefault', 'del-missing', 'popitem-empty', 'reopen', 'update:kwargs', 'update:pairs']
+            'pop-missing-nodefault', 'del-missing', 'popitem-empty', 'reopen', 'update:kwargs', 'update:pairs', 'update:zip', 'update:generator']
 KEYS = ['a', 'b', 'ключ', 'k 4']
 
 
@@ -157,7 +157,7 @@ def st_op(draw):
     if o == 'set':
         return {'o': 'set', 'k': k, 'v': draw(st_value())}
     if o == 'update':
-        form = draw(st.sampled_from(['dict', 'kwargs', 'pairs', 'empty', 'dict+kwargs']))
+        form = draw(st.sampled_from(['dict', 'kwargs', 'pairs', 'empty', 'dict+kwargs', 'zip', 'generator', 'iter']))
         items = [] if form == 'empty' else [[kk, draw(st_value())] for kk in draw(st.lists(st.sampled_from(KEYS), max_size=3, unique=True))]
         return {'o': 'update', 'form': form, 'items': items}
     if o == 'pop':
@@ -326,6 +326,12 @@ def execute(ctx, spec):
                         op = dict(op, items=[[k, v] for k, v in op['items'] if k.isidentifier()])
                     elif form == 'pairs':
                         md.update(items)
+                    elif form == 'zip':          # one-shot iterables of pairs: they can be walked only once
+                        md.update(zip([k for k, _ in items], [v for _, v in items]))
+                    elif form == 'generator':
+                        md.update((k, v) for k, v in items)
+                    elif form == 'iter':
+                        md.update(iter(items))
                     elif form == 'empty':
                         md.update({})
                     else:
